@@ -73,7 +73,7 @@ func makeHuge(rt *rapid.T, cols []inputCol) {
 	n := max(1, len(cols[0].rows))
 	rows := gen.DrawRows(rt, k, n)
 	x := rapid.Uint64().Draw(rt, "huge-seed") | 1
-	v := make([]byte, 1<<20+rapid.IntRange(1, 300_000).Draw(rt, "huge-extra"))
+	v := make([]byte, rapid.SampledFrom([]int{1 << 20, 1 << 20, 1 << 20, 4 << 10, 16 << 10, 64 << 10, 128 << 10, 512 << 10}).Draw(rt, "huge-size")+rapid.IntRange(-40, 300_000).Draw(rt, "huge-extra"))
 	for i := range v {
 		x ^= x << 13
 		x ^= x >> 7
@@ -394,7 +394,7 @@ func runC02(rt *rapid.T, st *stats.Collector) {
 		st.Label(fmt.Sprintf("streamed-input-blocks:%d", len(rounds)))
 	}
 	if (huge == 0 && len(input) > 0) || (huge == 1 && len(ext) > 0) {
-		st.Label("block-over-1MiB")
+		st.Label("large-block")
 	}
 }
 
